@@ -533,6 +533,11 @@ def compute_order(
       block.connect_outgoing(first_op_to_block[first_op.target])
     if last_op.target:
       block.connect_outgoing(first_op_to_block[last_op.target])
+    for op in block.code[1:-1]:
+      # An instruction that only stores a jump (SETUP_EXCEPT_311) neither
+      # starts nor ends a block, so it can sit in the middle of one.
+      if op.target:
+        block.connect_outgoing(first_op_to_block[op.target])
     if last_op.block_target:
       block.connect_outgoing(first_op_to_block[last_op.block_target])
   return cfg_utils.order_nodes(blocks)
